@@ -261,6 +261,14 @@ def splice_closure_specs(body, specs):
             head += " ensures " + sp["ensures"]
         if toks[b0].text != "{":
             src_body = "{ " + src_body + " }"
+        if sp.get("destructure"):
+            # R31: a pattern parameter `|PAT| BODY` is written `|p: T| { let PAT = p; BODY }` (this Verus accepts only variables as
+            # closure parameters); the pattern text must be the closure's own
+            pat_src = body[toks[i + 1].start:toks[pend - 1].end] if pend > i + 1 else ""
+            want, var = sp["destructure"]
+            if "".join(pat_src.split()) != "".join(want.split()):
+                raise Undecided("closure #%d: parameter pattern is %r, expected %r" % (ordinal, pat_src, want))
+            src_body = "{ let %s = %s; %s }" % (want, var, src_body)
         edits.append((toks[i].start, toks[b1].end, head + " " + src_body))
     if len(found) != len(specs) and specs.get("__all__", True):
         pass
@@ -1114,7 +1122,13 @@ class FnItem:
             optional = pr[4] if len(pr) > 4 else False
             if where == "end":
                 # just before the closing brace of the function body
-                inserts.append((len(body.rstrip()) - 1, "\n" + _indent(txt, 12) + "\n", "proof@end"))
+                semi = ""
+                if len(nbody) >= 2 and nbody[-2].text not in (";", "}", "{") and "->" not in sig:
+                    # R30: the unit-valued tail expression of a function without a return type becomes a statement (`E` -> `E;`),
+                    # so that a proof block can follow it
+                    semi = ";"
+                    hits["R30"] = 1
+                inserts.append((len(body.rstrip()) - 1, semi + "\n" + _indent(txt, 12) + "\n", "proof@end"))
                 continue
             offs = _find_anchor(nbody, anchor)
             if optional and not offs:
@@ -1208,6 +1222,15 @@ class StructItem:
             if len(blocks) != 1:
                 raise Undecided("%s: mod %r found %d times" % (rel, spec["mod"], len(blocks)))
             lo, hi = blocks[0][1] + 1, blocks[0][2]
+        if spec.get("inside_fn"):
+            # the struct is declared inside the body of a function: narrow the search to that body
+            oimpl, ofn = spec["inside_fn"]
+            outer = []
+            for b in src.find_blocks("impl", oimpl, lo, hi):
+                outer += src.find_fn(ofn, b[1] + 1, b[2])
+            if len(outer) != 1:
+                raise Undecided("%s: enclosing fn %s in impl /%s/ found %d times" % (rel, ofn, oimpl, len(outer)))
+            lo, hi = outer[0][2] + 1, outer[0][3]
         r = src.find_struct(spec["name"], lo, hi)
         if r is None:
             raise Undecided("%s: struct %s not found" % (rel, spec["name"]))
